@@ -1,4 +1,5 @@
 import PoorProofs.Lemmas.Multipart
+import PoorProofs.Lemmas.MultipartG
 /-
 C08 - multipart/form-data decodes to exactly the parts that were encoded.
 -/
@@ -72,6 +73,66 @@ theorem C08_memory (ib final : Bytes) (hne : ib ≠ []) (hlen : ib.length ≤ 70
     have h4 : decide (ib.length ≤ 201) = true := by simp; omega
     simp [h1, h2, h3, h4]
   exact parse_encode ib final (BOk_of_boundary ib hne hlen hchars hlast) hvalid hfinal ps hps hok fuel hfuel
+
+theorem validBoundary_of (ib : Bytes) (hne : ib ≠ []) (hlen : ib.length ≤ 70)
+    (hchars : ∀ x ∈ ib, 32 ≤ x.toNat ∧ x.toNat ≤ 126) (hlast : ib.getLast? ≠ some 32) :
+    validBoundary ib = true := by
+  unfold validBoundary
+  have h1 : ib.isEmpty = false := by cases ib <;> simp_all
+  have h2 : ib.all (fun x => decide (32 ≤ x.toNat) && decide (x.toNat ≤ 126)) = true := by
+    rw [List.all_eq_true]; intro x hx; have := hchars x hx; simp [this.1, this.2]
+  have h3 : (ib.getLast? != some 32) = true := by simpa using hlast
+  have h4 : decide (ib.length ≤ 201) = true := by simp; omega
+  simp [h1, h2, h3, h4]
+
+/-- **C08 over any line reader that honours the contract** (`Contract`: lines are consecutive pieces
+    of the pending input, non-empty while input is left, never run past the first CRLF, return a
+    complete CR/LF-free line whole, and a reader that stops after a CR says so).  Same statement as
+    `C08_memory`, for every reader state whose pending input is the encoded body. -/
+theorem C08_any_reader {R : Type} {rd : Rd R} {pend : R → Bytes} {Ok afterCR : R → Prop}
+    (hc : Contract rd pend Ok afterCR) (ib final : Bytes) (hne : ib ≠ []) (hlen : ib.length ≤ 70)
+    (hchars : ∀ x ∈ ib, 32 ≤ x.toNat ∧ x.toNat ≤ 126) (hlast : ib.getLast? ≠ some 32)
+    (hfinal : final = [CR, LF] ∨ final = []) (ps : List EPart) (hps : ps ≠ []) (hok : ∀ p ∈ ps, PartOK ib p)
+    (fuel : Nat) (hfuel : ∀ p ∈ ps, p.content.length + 3 + ps.length < fuel)
+    (r : R) (hr : Ok r) (hpend : pend r = encode ib final ps) :
+    parseMultipart rd ib fuel r = .ok (ps.map expected) :=
+  parse_encodeG hc ib final (BOk_of_boundary ib hne hlen hchars hlast)
+    (validBoundary_of ib hne hlen hchars hlast) hfinal ps hps hok fuel hfuel r hr hpend
+
+/-- **C08, delivery through the block-caching reader (`CachedInput`).**  For every reader state -
+    any block size, any part of the body already buffered, the rest still to be fetched from the
+    stream - whose pending input is the encoded body, the parser returns exactly the parts. -/
+theorem C08_cached (ib final : Bytes) (hne : ib ≠ []) (hlen : ib.length ≤ 70)
+    (hchars : ∀ x ∈ ib, 32 ≤ x.toNat ∧ x.toNat ≤ 126) (hlast : ib.getLast? ≠ some 32)
+    (hfinal : final = [CR, LF] ∨ final = []) (ps : List EPart) (hps : ps ≠ []) (hok : ∀ p ∈ ps, PartOK ib p)
+    (fuel : Nat) (hfuel : ∀ p ∈ ps, p.content.length + 3 + ps.length < fuel)
+    (s : Reader.St) (hpend : s.pending = encode ib final ps) :
+    parseMultipart cachedReader ib fuel s = .ok (ps.map expected) :=
+  C08_any_reader cachedContract ib final hne hlen hchars hlast hfinal ps hps hok fuel hfuel s trivial hpend
+
+/-- the state the request starts in: nothing buffered, the declared length is the body's length, the
+    stream delivers the body in pieces of any sizes (`script`: short reads) -/
+theorem C08_cached_fresh (ib final : Bytes) (hne : ib ≠ []) (hlen : ib.length ≤ 70)
+    (hchars : ∀ x ∈ ib, 32 ≤ x.toNat ∧ x.toNat ≤ 126) (hlast : ib.getLast? ≠ some 32)
+    (hfinal : final = [CR, LF] ∨ final = []) (ps : List EPart) (hps : ps ≠ []) (hok : ∀ p ∈ ps, PartOK ib p)
+    (fuel : Nat) (hfuel : ∀ p ∈ ps, p.content.length + 3 + ps.length < fuel)
+    (script : List Nat) (trailing : Bytes) :
+    parseMultipart cachedReader ib fuel
+        (Reader.St.init (encode ib final ps ++ trailing) (encode ib final ps).length script)
+      = .ok (ps.map expected) :=
+  C08_cached ib final hne hlen hchars hlast hfinal ps hps hok fuel hfuel _
+    (by simp [Reader.St.pending, Reader.St.init])
+
+/-- **the way the body is delivered does not matter**: in memory or through the caching reader with
+    any block size, the decoded parts are the same. -/
+theorem C08_delivery_independent (ib final : Bytes) (hne : ib ≠ []) (hlen : ib.length ≤ 70)
+    (hchars : ∀ x ∈ ib, 32 ≤ x.toNat ∧ x.toNat ≤ 126) (hlast : ib.getLast? ≠ some 32)
+    (hfinal : final = [CR, LF] ∨ final = []) (ps : List EPart) (hps : ps ≠ []) (hok : ∀ p ∈ ps, PartOK ib p)
+    (fuel : Nat) (hfuel : ∀ p ∈ ps, p.content.length + 3 + ps.length < fuel)
+    (s : Reader.St) (hpend : s.pending = encode ib final ps) :
+    parseMultipart cachedReader ib fuel s = parseMultipart lfReader ib fuel (encode ib final ps) := by
+  rw [C08_cached ib final hne hlen hchars hlast hfinal ps hps hok fuel hfuel s hpend,
+    C08_memory ib final hne hlen hchars hlast hfinal ps hps hok fuel hfuel]
 
 /-- non-vacuity: a content full of near-delimiters -/
 example :
